@@ -41,10 +41,43 @@ let mz_decode a =
 
 let b2i b = if b then 1 else 0
 
+(* forwarding family of event::ExecuteCommand: xt= (params.endpoint), xcap=, xh= (params.host exists), rep= (receiver endpoint) *)
+let mz_xmode a = str a "m" "" = "event::ExecuteCommand" && str a "xt" "" <> ""
+let mz_zone_of_ep ep = int_of_string (String.sub ep 0 (String.length ep - 1))
+let mz_decode_x a t =
+  let recv = string_of_int (num a "recv" 0) in
+  let rep = str a "rep" "a" in
+  let snd = str a "snd" "0a" in
+  let xt = str a "xt" "-" in
+  let tgt = if xt = "-" then MzXNone else if xt = "unk" then MzXUnknown
+            else if xt = recv ^ rep then MzXLocalEp else MzXZone (mz_nat (mz_zone_of_ep xt)) in
+  let x = { mz_xtgt = tgt; mz_xcap = (num a "xcap" 1 <> 0);
+            mz_xhost = (if num a "xh" 0 <> 0 then Some (mz_opt_zone (str a "oz" "-")) else None) } in
+  let tarr = Array.of_list t in
+  let nep z = let i = mz_int z in
+    if i < Array.length tarr && not tarr.(i).mz_zglobal then mz_nat 2 else O in     (* the fixture: two endpoints per non-global zone *)
+  let e = { mz_rnep = nep; mz_rself = (snd = recv ^ rep); mz_rmaster = (rep = "a"); mz_rsndmaster = (snd = recv ^ "a") } in
+  (x, e)
+let mz_zlist zs =
+  let l = List.sort_uniq compare (List.map mz_int zs) in
+  if l = [] then "-" else String.concat "," (List.map string_of_int l)
+let mz_parse_zlist v =
+  if v = "-" || v = "" then [] else List.map (fun z -> mz_nat (int_of_string z)) (String.split_on_char ',' v)
+
 let op_mz_msg a =
   let (t, c, s, m, ts, meth) = mz_decode a in
-  let o = mz_run_i t c s m ts (mz_index meth) in
-  emit (Printf.sprintf "msg rlp=%d app=%d" (b2i o.mz_rlp) (b2i o.mz_applied))
+  if mz_xmode a then begin
+    let (x, e) = mz_decode_x a t in
+    let o = mz_exec_run t c s m x e ts in
+    emit (Printf.sprintf "msg rlp=%d app=%d xc=%s xd=%s" (b2i o.mz_xrlp) (b2i o.mz_xapp) (mz_zlist o.mz_xc) (mz_zlist o.mz_xd))
+  end else
+  let zp = match str a "zp" "" with
+    | "" -> (match mz_opt_zone (str a "oz" "-") with None -> MzZEmpty | Some z -> MzZKnown z)   (* the harness sends the object's own zone *)
+    | "e" -> MzZEmpty | "x" -> MzZUnknown | z -> MzZKnown (mz_nat (int_of_string z)) in
+  let o = mz_run_zp_i t c s m ts (mz_index meth) zp in
+  let cz = if str a "cz" "" = "" then "" else
+    (match mz_created_zone o (mz_opt_zone (str a "cz" "-")) zp with None -> " cz=-" | Some z -> Printf.sprintf " cz=%d" (mz_int z)) in
+  emit (Printf.sprintf "msg rlp=%d app=%d%s" (b2i o.mz_rlp) (b2i o.mz_applied) cz)
 
 let op_mz_zoneless _ = emit "zoneless rejected=1"
 
@@ -75,12 +108,26 @@ let oracle_c13_case script trace =
          if List.mem "HANG" toks then fail (Printf.sprintf "msg=%d crash hang" !idx) else begin
          let geti k = match tok_val toks k with Some v -> int_of_string v | None -> -1 in
          let (t, c, s, m, _, meth) = mz_decode a in
-         let o = { mz_dropped = false; mz_rlp = (geti "rlp" = 1); mz_applied = (geti "app" = 1) } in
-         let code = mz_int (mz_oracle_i t c s m (mz_index meth) o) in
+         let code =
+           if mz_xmode a then begin
+             let (x, _) = mz_decode_x a t in
+             let gets k = match tok_val toks k with Some v -> v | None -> "-" in
+             let o = { mz_xrlp = (geti "rlp" = 1); mz_xapp = (geti "app" = 1);
+                       mz_xc = mz_parse_zlist (gets "xc"); mz_xd = mz_parse_zlist (gets "xd") } in
+             mz_int (mz_xoracle t c s m x o)
+           end else
+             let o = { mz_dropped = false; mz_rlp = (geti "rlp" = 1); mz_applied = (geti "app" = 1) } in
+             mz_int (mz_oracle_i t c s m (mz_index meth) o) in
          if code <> 0 then
            fail (Printf.sprintf "msg=%d code=%d %s m=%s ep=%s" !idx code
                    (match code with 1 -> "unclassified-method-applied" | 2 -> "applied-not-entitled" | 3 -> "inert-method-had-effect"
-                                  | 5 -> "log-position-moved-without-endpoint" | _ -> "inconsistent")
+                                  | 5 -> "log-position-moved-without-endpoint"
+                                  | 6 -> "command-handled-for-sender-outside-own-or-parent-zone"
+                                  | 7 -> "command-forwarded-to-target-outside-subtree"
+                                  | 8 -> "command-handed-to-zone-off-path"
+                                  | 9 -> "reply-handed-to-foreign-zone"
+                                  | 10 -> "local-execution-relayed"
+                                  | _ -> "inconsistent")
                    meth (match mz_ep s with None -> "none" | Some _ -> "some"))
          end)
     | _ -> ()) script;
